@@ -66,14 +66,14 @@ func parseBeacon(r, s, p string) *common.Beacon {
 func cursorToken(ctx context.Context, st chain.Store, c chain.Cursor, t string, allowMut bool) string {
 	switch {
 	case t == "first":
-		return showBeacon(c.First(ctx))
+		return showRead(c.First(ctx))
 	case t == "next":
-		return showBeacon(c.Next(ctx))
+		return showRead(c.Next(ctx))
 	case t == "last":
-		return showBeacon(c.Last(ctx))
+		return showRead(c.Last(ctx))
 	case strings.HasPrefix(t, "seek:"):
 		r, _ := strconv.ParseUint(t[5:], 10, 64)
-		return showBeacon(c.Seek(ctx, r))
+		return showRead(c.Seek(ctx, r))
 	case allowMut && strings.HasPrefix(t, "put:"):
 		f := strings.Split(t, ":")
 		if err := st.Put(ctx, parseBeacon(f[1], f[2], f[3])); err != nil {
@@ -286,9 +286,16 @@ func storeEngine(args []string, in *bufio.Scanner, out *bufio.Writer) {
 		case "cur":
 			var outs []string
 			called := false
-			err := st.Cursor(ctx, func(ctx context.Context, c chain.Cursor) error {
+			cctx, cancelSession := context.WithCancel(ctx)
+			defer cancelSession()
+			err := st.Cursor(cctx, func(ctx context.Context, c chain.Cursor) error {
 				called = true
 				for _, t := range f[1:] {
+					if t == "cancel" { // the context of the session goes away while the cursor is open
+						cancelSession()
+						outs = append(outs, "ok")
+						continue
+					}
 					outs = append(outs, cursorToken(ctx, st, c, t, isMem))
 				}
 				return nil
